@@ -30,6 +30,16 @@ def prescribe(ctx, jobs, fuel=20000, timeout=1500, workers=None):
     """jobs: list of dict(id, prog, dev, mode, what) -> {id: record} from NanoSem"""
     if not jobs:
         return {}, None
+    if len(jobs) > 2500:                 # keep single TLC runs bounded: evaluate in chunks and merge
+        recs, last = {}, None
+        for i in range(0, len(jobs), 2500):
+            r1, last1 = prescribe(ctx, jobs[i:i + 2500], fuel=fuel, timeout=timeout, workers=workers)
+            recs.update(r1)
+            if last is None:
+                last = last1
+            else:
+                last.generated += last1.generated; last.distinct += last1.distinct
+        return recs, last
     jf = os.path.join(ctx.scratch, "jobs.%d.ndjson" % len(ctx.tlc_runs))
     with open(jf, "w") as f:
         for j in jobs:
